@@ -81,55 +81,84 @@ func ruleTreeSplit(c *Ctx, r *R) {
 		return
 	}
 	var ln, rn int64 = -1, -1
-	instrs(fn, func(b *ssa.BasicBlock, i int, in ssa.Instruction) {
-		st, ok := in.(*ssa.Store)
+	// (the two halves may be filled by one helper called twice: right.fillFrom(&all, from, n, leaf); left.fillFrom(...))
+	inCaller := func(v ssa.Value, chain []*ssa.Call) ssa.Value {
+		for d := 0; d < 4; d++ {
+			switch x := v.(type) {
+			case *ssa.Convert:
+				if _, isP := x.X.(*ssa.Parameter); isP && len(chain) > 0 {
+					v = x.X
+					continue
+				}
+			case *ssa.Parameter:
+				if len(chain) > 0 {
+					return argOf(x, chain)
+				}
+			}
+			break
+		}
+		return v
+	}
+	for _, di := range deepInstrs(fn, 2) {
+		if len(di.calls) > 0 {
+			if cal := staticCallee(&di.calls[0].Call); cal == nil || cal.Signature.Recv() == nil || !isNamedType(cal.Signature.Recv().Type(), treeRel, "node") {
+				continue // only helpers of node that fill a half (not the amalgam's accessors, Clear, ...)
+			}
+		}
+		st, ok := di.in.(*ssa.Store)
 		if !ok {
-			return
+			continue
 		}
 		fa, ok := st.Addr.(*ssa.FieldAddr)
 		if !ok || fieldName(fa.X.Type(), fa.Field) != "n" {
-			return
+			continue
 		}
-		v, ok := evalConst(st.Val, 0)
+		v, ok := evalConst(inCaller(st.Val, di.calls), 0)
 		if !ok {
-			return
+			continue
 		}
-		if _, fresh := fa.X.(*ssa.Alloc); fresh {
+		nd := inCaller(fa.X, di.calls)
+		if _, fresh := nd.(*ssa.Alloc); fresh {
 			if _, lit := st.Val.(*ssa.Const); lit {
-				return // parent.n = 1 of a new root
+				continue // parent.n = 1 of a new root
 			}
 			rn = v // right := &node{}
-		} else if strings.HasPrefix(path(fa.X), "phi:x") || path(fa.X) == "x" || strings.Contains(path(fa.X), "x") {
+		} else if strings.HasPrefix(path(nd), "phi:x") || path(nd) == "x" || strings.Contains(path(nd), "x") {
 			ln = v
 		}
-	})
+	}
 	r.ok(ln >= mn && ln <= mx && rn >= mn && rn <= mx, "tree.btree.overfill|halves-in-range", fn.Pos(), "after a split left.n = "+itoa(int(ln))+" and right.n = "+itoa(int(rn))+" must both lie in [minKVs, maxKVs] = ["+itoa(int(mn))+", "+itoa(int(mx))+"]")
 	r.ok(ln+rn+1 == mx+1, "tree.btree.overfill|halves-sum", fn.Pos(), "left.n + right.n + separator must account for all maxKVs+1 entries")
 	// in-place rewrite of the left half must iterate downwards
 	k := 0
-	instrs(fn, func(b *ssa.BasicBlock, i int, in ssa.Instruction) {
-		st, ok := in.(*ssa.Store)
+	for _, di := range deepInstrs(fn, 2) {
+		if len(di.calls) > 0 {
+			if cal := staticCallee(&di.calls[0].Call); cal == nil || cal.Signature.Recv() == nil || !isNamedType(cal.Signature.Recv().Type(), treeRel, "node") {
+				continue
+			}
+		}
+		st, ok := di.in.(*ssa.Store)
 		if !ok {
-			return
+			continue
 		}
 		nd, arr, ok := nodeArray(st.Addr)
 		if !ok {
-			return
+			continue
 		}
-		if _, fresh := nd.(*ssa.Alloc); fresh {
-			return // writes into the new right node do not alias the view
+		if _, fresh := inCaller(nd, di.calls).(*ssa.Alloc); fresh {
+			continue // writes into the new right node do not alias the view
 		}
 		call, ok := st.Val.(*ssa.Call)
 		if !ok {
-			return
+			continue
 		}
 		cal := staticCallee(&call.Call)
 		if cal == nil || (fname(cal) != "Key" && fname(cal) != "Value" && fname(cal) != "Child") {
-			return
+			continue
 		}
 		ia, ok := st.Addr.(*ssa.IndexAddr)
 		if !ok {
-			return
+			continue
 		}
 		k++
 		phi, ok := ia.Index.(*ssa.Phi)
@@ -142,7 +171,7 @@ func ruleTreeSplit(c *Ctx, r *R) {
 			}
 		}
 		r.ok(down, "tree.btree.overfill|left-"+arr+"-rewritten-downwards", st.Pos(), "left IS x, and all."+fname(cal)+"(i) reads x."+arr+"[i] or x."+arr+"[i-1] on the fly: rewriting left."+arr+" upwards overwrites slots before they are read (entries are duplicated and others lost)")
-	})
+	}
 	if k < 3 {
 		r.violated("tree.btree.overfill|left-rewrite", fn.Pos(), "expected in-place rewrites of left.keys, left.values and left.children from the amalgam view")
 	}
